@@ -97,3 +97,16 @@ def gen_tokenizer(items):
         return D('TOKEN_RESET_POSITION_IS_MAX', 1 if m else 0,
                  'Token::reset: 1 = `self.position = usize::MAX` (the first `wrapping_add(1)` gives position 0)')
     items.append(reset_position)
+
+    def buffer_clears():
+        # filters that build the rewritten text in a reusable String and swap it with the token text
+        lo = fn_body('src/tokenizer/lower_caser.rs', 'to_lowercase_unicode')
+        fo = fn_body('src/tokenizer/ascii_folding_filter.rs', 'to_ascii')
+        st = fn_body('src/tokenizer/stemmer.rs', 'advance')
+        a = 1 if re.match(r'\s*output\.clear\(\)\s*;', lo) else 0
+        b = 1 if re.match(r'\s*output\.clear\(\)\s*;', fo) else 0
+        c = 1 if re.search(r'self\.buffer\.clear\(\)\s*;\s*self\.buffer\.push_str\(', st) else 0
+        return D('LOWERCASER_CLEARS_OUTPUT', a, 'lower_caser.rs to_lowercase_unicode starts with `output.clear()`') + '\n' + \
+               D('ASCII_FOLDING_CLEARS_OUTPUT', b, 'ascii_folding_filter.rs to_ascii starts with `output.clear()`') + '\n' + \
+               D('STEMMER_CLEARS_BUFFER', c, 'stemmer.rs advance: `self.buffer.clear()` before `push_str`')
+    items.append(buffer_clears)
